@@ -491,6 +491,7 @@ RULES = [
     ("X-OPERANDS", "each operand of a comparison is evaluated afresh (no memo shared between operands or conditions: a remembered value comes back as text) [shared]", lambda ctx: __import__("conf").operands_evaluated_afresh(ctx)),
     ("X-REEVAL", "an expression evaluated twice for one entry has the same typed value both times (no text-valued memo beside the map handed in) [shared]", lambda ctx: __import__("gcev").reevaluation_is_stable(ctx)),
     ("X-QUERY", "the WHERE tree stored in the query is the Boolean function parse_where returned (any rewriting pass in between is followed through) [shared]", lambda ctx: __import__("extra2").where_tree_reaches_query(ctx)),
+    ("C13-R1", "date columns: the comparison arms on all orderings of (t, a, b) - each operator and its opposite use matching ends of the literal's interval [shared with C13]", lambda ctx: __import__("c13").r1(ctx)),
 ]
 
 EXPLANATION = (
